@@ -32,7 +32,30 @@ inline std::unique_ptr<DomainGeometry> make_geometry(Rng& rng, double Rmax, std:
     if (g == 2) { double eps = rng.uniform(0.1, 0.5), e = rng.uniform(1.0, 2.0); name = "czarny"; return std::make_unique<CzarnyGeometry>(Rmax, eps, e); }
     name = "culham"; return std::make_unique<CulhamGeometry>(Rmax);
 }
+// a user-supplied profile (the properties quantify over "all coefficient profiles with alpha > 0, beta >= 0", not only the shipped
+// ones): alpha of a shipped profile, beta = B / alpha with a large B — the reaction term dominates the rows.  The drivers get the
+// coefficient values node by node, so nothing on the model side depends on the class.
+class UserReactionProfile : public DensityProfileCoefficients
+{
+public:
+    UserReactionProfile(std::unique_ptr<DensityProfileCoefficients> base, double B) : base_(std::move(base)), B_(B) {}
+    double alpha(const double& r) const override { return base_->alpha(r); }
+    double beta(const double& r) const override { return B_ / base_->alpha(r); }
+    double getAlphaJump() const override { return base_->getAlphaJump(); }
+private:
+    std::unique_ptr<DensityProfileCoefficients> base_;
+    double B_;
+};
+inline std::unique_ptr<DensityProfileCoefficients> make_shipped_coefficients(Rng& rng, double Rmax, std::string& name);
 inline std::unique_ptr<DensityProfileCoefficients> make_coefficients(Rng& rng, double Rmax, std::string& name)
+{
+    auto c = make_shipped_coefficients(rng, Rmax, name);
+    if (!rng.coin(0.12)) return c;
+    const double B = rng.pick(std::vector<double>{40.0, 4000.0});
+    name = "userReaction" + std::to_string((int)B) + "_" + name;
+    return std::make_unique<UserReactionProfile>(std::move(c), B);
+}
+inline std::unique_ptr<DensityProfileCoefficients> make_shipped_coefficients(Rng& rng, double Rmax, std::string& name)
 {
     int c = rng.range(0, 6);
     double aj = rng.uniform(0.3, 0.8) * Rmax;
